@@ -198,4 +198,9 @@ class MatrixData:
         """Imports textual data to a file
 
         """        
-        self.data = numpy.loadtxt(filename)
+        # complex data are written as '(a+bj)'; read them as the sibling
+        # DataSaveable does
+        try:
+            self.data = numpy.loadtxt(filename)
+        except ValueError:
+            self.data = numpy.loadtxt(filename, dtype=complex)
